@@ -34,3 +34,24 @@ def sortStableFunc (cmp : α → α → Int) : List α → List α
   | x :: xs => insertCmp cmp x (sortStableFunc cmp xs)
 
 end Corerad.Model
+
+namespace Corerad.Model
+
+/-- Go's element-wise comparison loop `equal := true; for j := range xs { if xs[j] != ys[j] { equal = false; break } }`
+    over two slices of equal length -/
+def zipAllEq [DecidableEq α] : List α → List α → Bool
+  | a :: as, b :: bs => decide (a = b) && zipAllEq as bs
+  | _, _ => true
+
+theorem zipAllEq_eq [DecidableEq α] (xs ys : List α) (h : xs.length = ys.length) :
+    zipAllEq xs ys = decide (xs = ys) := by
+  induction xs generalizing ys with
+  | nil => cases ys <;> simp_all [zipAllEq]
+  | cons a as ih =>
+    cases ys with
+    | nil => simp at h
+    | cons b bs =>
+      have hl : as.length = bs.length := by simpa using h
+      simp [zipAllEq, ih bs hl]
+
+end Corerad.Model
